@@ -1,9 +1,9 @@
 SPECIFICATION Spec
 CONSTANTS
-    Clients = {1}
-    MaxReq = 3
-    Cfgs <- CfgMC
-    Calls <- CallsSmall
+    Clients = {1, 2}
+    MaxReq = 2
+    Cfgs <- CfgRec
+    Calls <- CallsTiny
     Ctxs <- Ctx3
     Mode = "mc"
     Depth = 0
